@@ -18,7 +18,8 @@ from harness import core, inject, world as W
 
 RULE = ("start/stop histories over small trees (0-3 product files) x key types x both formats x key-argument forms; the stop "
         "phase killed after every audited operation and at 1/4, 1/2, 3/4 and all-but-one byte of the final write, and failed (ENOSPC-like "
-        "OSError from write() after a partial write, error on close()) at the same place; preliminary "
+        "OSError from write() after a partial write, error on close()) at the same place, and run under a real file-size limit "
+        "(RLIMIT_FSIZE) that lets only a prefix of the final link reach the disk whichever way the code writes; preliminary "
         "record missing / edited / re-signed by another key / left by another key; interleaved start / stop / run of two step "
         "names and keys in one directory. Non-trivial: every crash run and every tampered-preliminary run; distinct by "
         "(history, crash point).")
@@ -51,10 +52,13 @@ def make_products(prods):
             f.write("product %s\n" % p)
 
 
+STOP_KW = {}     # library-only arguments of in_toto_record_stop used by the current history (command / byproducts / environment)
+
+
 def stop(k, prods):
     import in_toto.runlib as rl
     with quiet():
-        rl.in_toto_record_stop("st", list(prods), signer=k.signer)
+        rl.in_toto_record_stop("st", list(prods), signer=k.signer, **STOP_KW)
 
 
 def dir_state(root, k, prods):
@@ -77,6 +81,9 @@ def dir_state(root, k, prods):
                 exp = {p: {"sha256": hashlib.sha256(("product %s\n" % p).encode()).hexdigest()} for p in prods}
                 if pl.products != exp:
                     return "wrong-content"
+                for key, val in STOP_KW.items():
+                    if getattr(pl, key) != val:
+                        return "wrong-content"
             return "complete"
         except Exception:  # pylint: disable=broad-except
             return "partial"
@@ -120,7 +127,13 @@ def one_history(rng, res):
     nprod = rng.randrange(0, 4)
     root = tempfile.mkdtemp(prefix="verif-c12-")
     cwd = os.getcwd()
-    desc = {"key": k.kind, "dsse": dsse, "products": nprod}
+    STOP_KW.clear()
+    if rng.random() < 0.4:
+        full = {"command": ["make", "all"], "byproducts": {"stdout": "ok\n", "stderr": "", "return-value": 0},
+                "environment": {"workdir": "/w", "variables": ["CI=1"]}}
+        for key in rng.sample(sorted(full), rng.randrange(1, 4)):
+            STOP_KW[key] = full[key]
+    desc = {"key": k.kind, "dsse": dsse, "products": nprod, "stop_arguments": sorted(STOP_KW)}
     try:
         os.chdir(root)
         prods = setup(root, nprod)
@@ -145,7 +158,8 @@ def one_history(rng, res):
         # (ii) crash at every audited operation (= before it is performed) and inside the write
         # offsets inside the write are relative to the bytes actually written (signatures vary in length)
         points = [("event", e) for e in range(len(trace) + 1)] + [("write", f) for f in (0.0, 0.25, 0.5, 0.75, -1)] + \
-                 [("write_fault", f) for f in (0.0, 0.5, -1)] + [("close_fault", 1.0)]
+                 [("write_fault", f) for f in (0.0, 0.5, -1)] + [("close_fault", 1.0)] + \
+                 [("fsize_limit", f) for f in (0.0, 0.3, 0.6, 0.9)]     # (not all-but-one byte: signature lengths vary between runs)
         for kind, arg in points:
             # reset the directory to the state before stop
             for f in os.listdir(root):
@@ -158,6 +172,17 @@ def one_history(rng, res):
                 if kind == "event":
                     with inject.watching([root], crash_at=arg):
                         stop(k, prods)
+                elif kind == "fsize_limit":
+                    # a fault of the operating system itself (file size limit / quota / full disk): only a prefix of
+                    # the final link fits, however the code writes it (buffered file object, os.write, ...)
+                    import resource
+                    n = max(1, int(final_len * arg))
+                    _soft, hard = resource.getrlimit(resource.RLIMIT_FSIZE)
+                    resource.setrlimit(resource.RLIMIT_FSIZE, (n, hard))
+                    try:
+                        stop(k, prods)
+                    finally:
+                        resource.setrlimit(resource.RLIMIT_FSIZE, (_soft, hard))
                 else:
                     import builtins
                     real_open = builtins.open
@@ -204,7 +229,7 @@ def one_history(rng, res):
                 kmodel = model_ops.index("createFinal") + 1   # inside the write
             ms = m["states"][min(kmodel, len(m["states"]) - 1)]
             mstate = (ms["prelim"], ms["final"])
-            died = status == 77 or kind in ("write_fault", "close_fault")
+            died = status == 77 or kind in ("write_fault", "close_fault", "fsize_limit")
             agreed = state == mstate or not died
             res.case({"desc": desc, "crash": [kind, arg], "exit": status, "state": state, "model": mstate}, True, agreed, sample_cap=1)
             res.count("crash_" + kind)
@@ -234,6 +259,7 @@ def one_history(rng, res):
 def tampered_prelim(rng, res):
     """(iii) stop must fail and write nothing unless the preliminary record exists,
     is unaltered and was signed by the same key."""
+    STOP_KW.clear()
     import in_toto.runlib as rl
     k, other = rng.sample(W.pool(), 2)
     dsse = rng.random() < 0.5
@@ -295,6 +321,7 @@ def tampered_prelim(rng, res):
 
 def interleaved(rng, res):
     """start / stop / run for two step names and two keys in one directory."""
+    STOP_KW.clear()
     import in_toto.runlib as rl
     from in_toto.models.metadata import Metadata
     k1, k2 = rng.sample(W.pool(), 2)
